@@ -83,6 +83,7 @@ type C05Plan struct {
 	Segs   []int        `json:"segs,omitempty"`
 	RSeed  uint64       `json:"rseed,omitempty"`  // dec: seed of the reference writer's random values
 	Corpus int          `json:"corpus,omitempty"` // corpus: entry index
+	Reuse  int          `json:"reuse,omitempty"`  // enc: the recipient objects (one per distinct key) already encrypted this many files before the checked one
 }
 
 type C05 struct{}
@@ -105,7 +106,7 @@ func (C05) Meta() core.Meta {
 		Real:        []string{"filippo.io/age Encrypt/Decrypt", "all four recipient/identity types", "armor", "internal/stream", "internal/format"},
 		Stub:        []string{"crypto/rand.Reader (tape)", "destination recorder", "reference encoder/decoder (sim/ref)"},
 		FaultKinds:  []string{},
-		Probes:      []string{"probe.enc_x25519", "probe.enc_scrypt", "probe.enc_ssh_ed25519", "probe.enc_ssh_rsa", "probe.enc_grease", "probe.enc_armor", "probe.dec_ref_written", "probe.corpus_entry", "probe.cctv_vector", "probe.big_257_chunks", "probe.len_on_chunk_boundary", "probe.body_multiple_of_48"},
+		Probes:      []string{"probe.enc_x25519", "probe.enc_scrypt", "probe.enc_ssh_ed25519", "probe.enc_ssh_rsa", "probe.enc_grease", "probe.enc_reused_recipient_objects", "probe.enc_armor", "probe.dec_ref_written", "probe.corpus_entry", "probe.cctv_vector", "probe.big_257_chunks", "probe.len_on_chunk_boundary", "probe.body_multiple_of_48"},
 	}
 }
 
@@ -158,6 +159,9 @@ func (C05) Generate(r *core.RNG, tier string, idx uint64) interface{} {
 		p.File.PLen = r.Intn(400)
 	}
 	p.Segs = lib.GenSegs(r, p.File.PLen)
+	if p.Mode == "enc" && r.Chance(1, 4) {
+		p.Reuse = r.Range(1, 2)
+	}
 	return p
 }
 
@@ -268,12 +272,27 @@ func (e C05) execEnc(p *C05Plan, c *core.Ctx) *core.Verdict {
 	if len(segs) == 0 {
 		segs = []int{spec.PLen}
 	}
-	res := lib.Encrypt(spec, segs, d, tape, nil)
+	var res *lib.EncResult
+	if p.Reuse > 0 {
+		// long-lived recipient objects: the same objects wrote other files first
+		cache := map[string]age.Recipient{}
+		for i := 0; i < p.Reuse; i++ {
+			warm := spec
+			warm.PLen, warm.Armor = 3, false
+			if r := lib.EncryptWith(cachedRecipients(cache, spec.Recips), warm, []int{3}, seam.NewDisk(nil, nil), seam.NewTape(spec.Tape+uint64(i)+1), nil); r.AnyErr() {
+				return core.Fail("C05.encrypt", "encryption failed: %+v", r)
+			}
+		}
+		c.Stats.Inc("probe.enc_reused_recipient_objects")
+		res = lib.EncryptWith(cachedRecipients(cache, spec.Recips), spec, segs, d, tape, nil)
+	} else {
+		res = lib.Encrypt(spec, segs, d, tape, nil)
+	}
 	if res.AnyErr() {
 		return core.Fail("C05.encrypt", "encryption failed: %+v", res)
 	}
 	P := spec.Plain()[:res.Accepted]
-	c.Stats.Eval(fmt.Sprintf("enc|%s|tape%d", spec.Skeleton(), spec.Tape), true)
+	c.Stats.Eval(fmt.Sprintf("enc|%s|tape%d|reuse%d", spec.Skeleton(), spec.Tape, p.Reuse), true)
 	bin := d.Data
 	if spec.Armor {
 		c.Stats.Inc("probe.enc_armor")
